@@ -317,7 +317,17 @@ def types_consts(repo, info):
     spec = importlib.util.spec_from_file_location('_bluebell_types_under_test', path)
     T = importlib.util.module_from_spec(spec)
     spec.loader.exec_module(T)
-    grammar_types = sorted(set(re.findall(r'<(\w+)>', open(os.path.join(repo, 'bluebell', 'akn.peg'), encoding='utf-8').read())))
+    # the type annotations of the parsed grammar (not a regex over the file: comments may mention <b> and the like)
+    from peggrammar import read_peg
+
+    def _types(e, acc):
+        if isinstance(e, (list, tuple)):
+            if e and e[0] == 'type':
+                acc.add(e[1])
+            for x in e:
+                _types(x, acc)
+        return acc
+    grammar_types = sorted(_types(list(read_peg(os.path.join(repo, 'bluebell', 'akn.peg')).values()), set()))
     missing = [t for t in grammar_types if not hasattr(T, t)]
     if missing:
         raise TranslateError(f'types.py lacks classes used by the grammar: {missing}')
